@@ -241,3 +241,25 @@ def both_reps(rng, n):
         out.append(c)
         out.append(c[:4] + (as_big(x), as_big(y), "pairB"))
     return out
+
+
+def ooc_cases(rng, n):
+    """out-of-contract calls (context width 0 or narrower than an operand, unsized literals on both
+    sides): only used to compare the implementation with the model, panics included (marker "ooc"
+    at index 6); the IEEE oracle is not applied to them"""
+    out = []
+    for _ in range(n):
+        if rng.random() < 0.25:
+            op = rng.choice(UNARY)
+            wx = rng.choice([0, 1, 2, 8, 64, 65])
+            x = rand_value(rng, wx)
+            out.append(("U", op, rng.choice([0, 0, 1, wx // 2, 64, 65]), rng.randint(0, 1), x, None, "ooc"))
+            continue
+        op = rng.choice(BINARY)
+        wx = rng.choice([0, 1, 2, 8, 64, 65])
+        wy = rng.choice([0, 1, 2, 8, 64, 65])
+        x = rand_value(rng, wx)
+        y = rand_value(rng, wy)
+        W = rng.choice([0, 0, 1, max(wx, wy) // 2, 64, 65])
+        out.append(("B", op, W, rng.randint(0, 1), x, y, "ooc"))
+    return out
